@@ -36,6 +36,30 @@ def run(ck):
     rule_G(ck, lib, sk, "C12-G")
     rule_T(ck, lib, sk)
     rule_W(ck, lib, sk)
+    rule_L(ck, lib, sk)
+
+
+def rule_L(ck, lib, sk):
+    """C12-L: a verdict does not depend on how much input there is behind the unit: no parser compares the length of its
+    input or of a remainder with a constant *from above* (`input.len() > LIMIT` -> reject). Length tests from below
+    (`len() < needed`) are the end-of-input tests of C12-I."""
+    n = 0
+    bad = {}
+    for path, f in sorted(sk.fns.items()):
+        for x in f["exits"]:
+            for c in x.conds:
+                if c[0] != "true" or c[1][0] != "bin" or c[1][1] not in ("Gt", "Ge", "Lt", "Le"):
+                    continue
+                op, a, b, val = c[1][1], c[1][2], c[1][3], c[2]
+                for (l, r, o) in ((a, b, op), (b, a, {"Gt": "Lt", "Ge": "Le", "Lt": "Gt", "Le": "Ge"}[op])):
+                    if l[0] == "call" and l[1].endswith("::len") and len(l[2]) == 1 and r[0] in ("lit", "const", "path") and (sk._is_input_slice(l[2][0], f, x)):
+                        n += 1
+                        above = (o in ("Gt", "Ge") and val is True) or (o in ("Lt", "Le") and val is False)
+                        small = r[0] == "lit" and isinstance(r[2], int) and r[2] <= 2
+                        if above and not small:
+                            bad[(path.split("::")[-1], show_term(pathsum.strip_sites(c[1]))[:80])] = x
+    ck.judge(not bad, "C12-L", "parser:no-upper-bound-on-input-length", "%d comparisons of an input length with a constant, none from above" % n,
+             "a parser's verdict depends on the amount of input behind the unit: %s" % sorted(bad)[:3])
 
 
 def rule_W(ck, lib, sk):
